@@ -298,17 +298,26 @@ func (pd *PsDigest) MakePatch(sig []byte) (*binpatch.PatchSet, error) {
 }
 
 func readLine(br *bufio.Reader, isUtf16 bool) (string, error) {
-	line, err := br.ReadString('\n')
-	if isUtf16 && err == nil {
-		// \n\0
-		var zero byte
-		zero, err = br.ReadByte()
-		if zero != 0 {
-			return "", errors.New("malformed utf16")
-		}
-		line += "\x00"
+	if !isUtf16 {
+		return br.ReadString('\n')
 	}
-	return line, err
+	// Read whole 16-bit code units up to \n\0. A 0x0A byte can just as well be
+	// one half of another character (U+010A, U+0A41, ...).
+	var line []byte
+	for {
+		var unit [2]byte
+		n, err := io.ReadFull(br, unit[:])
+		line = append(line, unit[:n]...)
+		if err == io.ErrUnexpectedEOF {
+			err = io.EOF
+		}
+		if err != nil {
+			return string(line), err
+		}
+		if unit[0] == '\n' && unit[1] == 0 {
+			return string(line), nil
+		}
+	}
 }
 
 // Convert UTF8 to UTF-16-LE
